@@ -510,8 +510,6 @@ func mutateBody(st *stats, sel func(*row) bool) func(*engine.X) {
 		for _, m := range muts {
 			m := m
 			x.Case(r.name + "|" + v.name + "|" + path + "|" + m.op)
-			before := len(st.failKeys)
-			_ = before
 			r.judge(x, st, m.data, &m, fmt.Sprintf("value %q with %s at %s (%s)", v.name, m.op, path, kind), m.family+"@"+np)
 			acc++
 		}
@@ -528,8 +526,6 @@ func shortBody(st *stats, rs []*row, length int) func(*engine.X) {
 		var rej, nl, acc int
 		run := func(in []byte) {
 			x.Case("")
-			b0 := st // shared stats; per-execution counters via before/after would need locks: recount locally
-			_ = b0
 			d := r.safeDec(in)
 			switch {
 			case d.panic != "" || d.err == nil && !isNil(d.v):
